@@ -128,3 +128,75 @@ contract(
     ], "locals": {"parent": Opt(Ref("Resource")), "parent_limits": Opt(Ref("Limits"))}}},
     locals={"parent": Opt(Ref("Resource"))},
 )
+
+TS = "scriptplan/core/task_scenario.py"
+fields_of("TaskScenario", property=Ref("Task"), project=Ref("Project"), scenarioIdx=Int)
+
+# every counter of a limits collection that applies to resource id `res` has one more booking in the period of
+# slot i; nothing is uncounted
+ghost("Counted", ["ls", "i", "res"],
+      "forall(k, 0, len(ls._limits), implies((ls._limits[k].resource is None or ls._limits[k].resource == res) "
+      "and uf_sbidx(ls._limits[k], i) >= 0, "
+      "cntv(ls._limits[k], uf_sbidx(ls._limits[k], i)) == old(cntv(ls._limits[k], uf_sbidx(ls._limits[k], i))) + 1))")
+
+contract(
+    TS + "::TaskScenario.incLimits", props=["C05"], trusted=True,
+    params={"self": Ref("TaskScenario"), "sbIdx": Int, "resource": Opt(Ref("Resource"))},
+    defaults={"resource": None},
+    requires=[],
+    ensures=[("ledger-frame", "True")],
+    modifies=["Limit._dirty", "$region:Limit._scoreboard"],
+    note="frame only (writes limit counters, never the ledger); its counting clause is proved separately as "
+         "TaskScenario.incLimits in c03_task.py -- declared here to break the module cycle",
+)
+
+contract(
+    RS + "::ResourceScenario.book", props=["C01", "C02", "C03", "C05", "C10"],
+    params={"self": Ref("ResourceScenario"), "sb_idx": Int, "task": Ref("Task"), "force": Bool}, ret=Real,
+    defaults={"force": False},
+    requires=_avail_requires + [
+        ("not-forced", "not force"),
+        ("ledger", "Ledger(self)"),
+        ("lists", "forall(s, forall(t, implies(s != t and s in self.slotTaskUsage and t in self.slotTaskUsage, "
+                  "self.slotTaskUsage[s] != self.slotTaskUsage[t])))"),
+        ("eff", "attr(self.property, 'efficiency', self.scenarioIdx) is None or some(attr(self.property, 'efficiency', self.scenarioIdx)) >= 0"),
+        ("task-data", "task.data is not None and 0 <= self.scenarioIdx and self.scenarioIdx < len(some(task.data))"),
+    ],
+    assumes=anc_axioms("self.property"),
+    ensures=[
+        # C01: the ledger invariant is preserved; the slot is filled exactly, never over-filled
+        ("ledger", "Ledger(self)"),
+        ("lists", "forall(s, forall(t, implies(s != t and s in self.slotTaskUsage and t in self.slotTaskUsage, "
+                  "self.slotTaskUsage[s] != self.slotTaskUsage[t])))"),
+        ("refused", "implies(result == 0 and old(used(self, sb_idx)) >= 0, forall(s, used(self, s) == old(used(self, s)) and usage(self, s) == old(usage(self, s))))"),
+        ("filled", "implies(result > 0, used(self, sb_idx) == D(self) and "
+                   "usage(self, sb_idx) == old(usage(self, sb_idx)) + (D(self) - old(used(self, sb_idx))))"),
+        ("entry-exists", "implies(result > 0, sb_idx in self.slotTaskUsage and len(self.slotTaskUsage[sb_idx]) >= 1)"),
+        ("entry-task", "implies(result > 0, self.slotTaskUsage[sb_idx][len(self.slotTaskUsage[sb_idx]) - 1][0] == task)"),
+        ("entry-seconds", "implies(result > 0, self.slotTaskUsage[sb_idx][len(self.slotTaskUsage[sb_idx]) - 1][1] == D(self) - old(used(self, sb_idx)))"),
+        ("frame", "forall(s, implies(s != sb_idx, used(self, s) == old(used(self, s)) and usage(self, s) == old(usage(self, s))))"),
+        # C02: a booking happens only in a slot the resource is on shift for
+        ("on-shift", "implies(result > 0, old(OnShiftSpec(self, sb_idx)))"),
+        # C03: effort credited = seconds taken x efficiency
+        ("credit-amount", "implies(result > 0, result == (D(self) - old(used(self, sb_idx))) / 3600 * "
+                          "ite(attr(self.property, 'efficiency', self.scenarioIdx) is None or some(attr(self.property, 'efficiency', self.scenarioIdx)) == 0, 1, "
+                          "some(attr(self.property, 'efficiency', self.scenarioIdx))))"),
+        # C05: a booking happens only while the resource's own limits and every enclosing group's admit it
+        ("was-within-limits", "implies(result > 0, old(NodeLimOk(self.property, self.scenarioIdx, sb_idx)) and "
+                              "forall(j, implies(j >= 0 and anc(self.property, j) is not None, "
+                              "old(NodeLimOk(some(anc(self.property, j)), self.scenarioIdx, sb_idx)))))"),
+    ],
+    calls={
+        "self.available": ("contract", RS + "::ResourceScenario.available"),
+        "self.getAvailableSecondsInSlot": ("contract", RS + "::ResourceScenario.getAvailableSecondsInSlot"),
+        "self.initScoreboard": ("havoc", NoneT, ["ResourceScenario.scoreboard"]),
+        "limits.inc": ("contract", LM + "::Limits.inc"),
+        "parent_limits.inc": ("contract", LM + "::Limits.inc"),
+        "task_scenario.incLimits": ("contract", TS + "::TaskScenario.incLimits"),
+    },
+    static={"hasattr(limits, 'inc')": True, "hasattr(parent_limits, 'inc')": True, "hasattr(task, 'data')": True,
+            "hasattr(task_scenario, 'incLimits')": True},
+    loops={0: {"inv": [("cursor", "parent == anc(self.property, _k)")],
+               "locals": {"parent": Opt(Ref("Resource")), "parent_limits": Opt(Ref("Limits"))}}},
+    locals={"parent": Opt(Ref("Resource"))},
+)
